@@ -18,7 +18,11 @@ RULE = ('one case = one value (or nested list, or expression) pushed through the
         'evaluate-versus-PRINT; random multi-step histories mixing API writes, BASIC statements and garbage '
         'collection; API round trips of scalars (short and 40-character names), lists and string expressions with the '
         'free memory steered by FRE(0) feedback to a few bytes around what the operation needs, before and after '
-        'collecting the string garbage placed above the live strings; non-trivial = not the zero/empty value')
+        'collecting the string garbage placed above the live strings; histories over four arrays and three scalars per '
+        'type that interleave set_variable / get_variable / evaluate with ERASE (of the array accessed last, of another, '
+        'of two), DIM with other rank or bounds, CLEAR, NEW, OPTION BASE, implicit dimensioning by element reads and '
+        'writes, and SWAP - a deterministic family around ERASE-and-reuse plus PRNG histories; '
+        'non-trivial = not the zero/empty value')
 EXPLANATION = ('theorems (PcbV.Props.C43): int_roundtrip / int_out_of_range / bool_roundtrip; float_roundtrip '
                '(truncation by less than one unit in the last place, exact when representable), '
                'float_roundtrip_exact, float_zero/underflow/overflow/nan; bytes_roundtrip; string_roundtrip '
@@ -30,7 +34,11 @@ EXPLANATION = ('theorems (PcbV.Props.C43): int_roundtrip / int_out_of_range / bo
                'own cp437 codec plus the control-picture table (strings), plain Python lists (arrays), parsing of '
                'the PRINT output (evaluate); memory-pressure episodes: the same round trips with the free memory steered to a '
                'few bytes around the need of the operation - exact result or a clean Out of memory / Out of string '
-               'space, every other variable intact, also after a forced collection. Reading of the statement for arrays: the list reads back as the same '
+               'space, every other variable intact, also after a forced collection; restructuring histories: every API value '
+               'and every statement status is compared, as it is produced, with a reference dictionary model of the '
+               'session variables (DIM/ERASE/OPTION BASE/CLEAR/implicit DIM/SWAP written from the documented behaviour), '
+               'and the histories over integer arrays also run through the Lean model (driver op hist; theorem '
+               'list_after_erase1). Reading of the statement for arrays: the list reads back as the same '
                'list when the array has the list\'s shape (DIM); when the array is larger (DIMmed larger, or '
                'auto-dimensioned to 10 by the first write, as the pinned unit test test_session expects) the list '
                'reads back embedded at the origin and every other element is untouched.')
@@ -1160,6 +1168,460 @@ def run_pressure(ch, ctx, n):
         pressure_episode(ch, ctx, ctx.rng.getrandbits(40))
 
 
+# ---------------------------------------------------------------------------------------------
+# API histories over several arrays and scalars with storage restructured between the API calls
+
+class Ref(object):
+    """Reference dictionary model of the variables of a session, written from the documented behaviour of
+    DIM / ERASE / OPTION BASE / CLEAR / implicit dimensioning (0..10 or 1..10) / SWAP.  Errors are numbers."""
+
+    def __init__(self):
+        self.clear()
+
+    def clear(self):
+        self.base, self.bydim = None, False
+        self.arr = {}       # name (with sigil) -> [dims, {index tuple: value}]
+        self.sc = {}
+
+    def option_base(self, b):
+        if self.base is not None and b != self.base:
+            return 10
+        self.base = b
+
+    def dim(self, name, dims):
+        if name in self.arr:
+            return 10
+        if any(d < 0 for d in dims):
+            return 5
+        if self.base is None:
+            self.base, self.bydim = 0, True
+        elif any(d < self.base for d in dims):
+            return 9
+        self.arr[name] = [list(dims), {}]
+
+    def erase(self, names):
+        for n in names:
+            if n not in self.arr:
+                return 5
+            del self.arr[n]
+        if not self.arr and self.bydim:
+            self.base, self.bydim = None, False
+
+    def access(self, name, idx):
+        """error of an element access; dimensions the array first if it does not exist"""
+        if name not in self.arr:
+            e = self.dim(name, [10] * len(idx))
+            if e:
+                return e
+        dims = self.arr[name][0]
+        if len(idx) != len(dims):
+            return 9
+        for i, d in zip(idx, dims):
+            if i < 0:
+                return 5
+            if i < self.base or i > d:
+                return 9
+
+    def get_elem(self, name, idx):
+        return self.arr[name][1].get(tuple(idx), _default(name[-1]))
+
+    def set_elem(self, name, idx, v):
+        self.arr[name][1][tuple(idx)] = v
+
+    def from_list(self, name, data, index=()):
+        if not data:
+            return 1000
+        b = self.base or 0
+        for i, v in enumerate(data):
+            if isinstance(data[0], list):
+                e = self.from_list(name, v, index + (i + (self.base or 0),))
+            else:
+                e = self.access(name, index + (i + (self.base or 0),))
+                if not e:
+                    self.set_elem(name, index + (i + (self.base or 0),), v)
+            if e:
+                return e
+
+    def to_list(self, name):
+        if name not in self.arr:
+            return []
+        dims = self.arr[name][0]
+
+        def build(pre, rest):
+            if not rest:
+                return self.get_elem(name, pre)
+            return [build(pre + (i,), rest[1:]) for i in range(self.base or 0, rest[0] + 1)]
+        return build((), dims)
+
+    def view(self, ref, empty_err):
+        """SWAP's way of finding an operand: a missing scalar is created (and refused as right operand)"""
+        if ref[0] == 's':
+            if ref[1] not in self.sc:
+                self.sc[ref[1]] = _default(ref[1][-1])
+                if empty_err:
+                    return 5
+            return None
+        return self.access(ref[1], ref[2])
+
+    def swap(self, x, y):
+        if x[1][-1] != y[1][-1]:
+            return 13
+        e = self.view(x, False) or self.view(y, True)
+        if e:
+            return e
+        rd = lambda r: self.sc[r[1]] if r[0] == 's' else self.get_elem(r[1], r[2])
+        wr = lambda r, v: self.sc.__setitem__(r[1], v) if r[0] == 's' else self.set_elem(r[1], r[2], v)
+        a, b = rd(x), rd(y)
+        wr(x, b)
+        wr(y, a)
+
+
+ARR_NAMES = ['R1', 'R2', 'R3', 'R4']        # model name numbers 1..4 for the % arrays
+
+
+def _lit(v):
+    if isinstance(v, (bytes, str)):
+        return '"%s"' % (v.decode('ascii') if isinstance(v, bytes) else v)
+    if isinstance(v, float):
+        return repr(v) if abs(v) < 1e15 and v == int(v) else ('%r' % v).replace('e', 'E')
+    return '%d' % v
+
+
+def _hval(rng, sigil):
+    if sigil == '%':
+        return rng.choice((rng.randint(-32768, 32767), rng.randint(1, 99)))
+    if sigil in '!#':
+        return float(rng.randint(-4000, 4000)) / rng.choice((1, 2, 4, 8))
+    # text (JSON-able in a replay); it is sent as str and lives as bytes in the reference
+    return ''.join(rng.choice('abcdefgh XYZ019.,') for _ in range(rng.choice((0, 1, 3, 8, 20))))
+
+
+def _b(v):
+    """history value -> the value as it reads back (str -> codepage bytes)"""
+    if isinstance(v, list):
+        return [_b(x) for x in v]
+    return v.encode('ascii') if isinstance(v, str) else v
+
+
+def _hlist(rng, sigil, shape):
+    if len(shape) == 1:
+        return [_hval(rng, sigil) for _ in range(shape[0])]
+    return [_hlist(rng, sigil, shape[1:]) for _ in range(shape[0])]
+
+
+def gen_restructure(rng, length, family=None):
+    """A history of API calls interleaved with BASIC statements that restructure the storage.  Biased towards
+    the neighbourhood of ERASE: the array accessed last (or another) is erased and the name is used again -
+    by a list of the same or another rank, DIM with other bounds, an element read/write, SWAP - before or after
+    another array has been touched."""
+    ops = []
+    sig_of = {}
+    last = None
+
+    def arrname():
+        n = rng.choice(ARR_NAMES)
+        sg = sig_of.setdefault(n, rng.choice('%%%!#$'))
+        return n + sg
+
+    def shape():
+        r = rng.choice((1, 1, 1, 2, 2, 3))
+        return [rng.choice((1, 2, 3, 4)) for _ in range(r)]
+
+    def index(rank):
+        return [rng.choice((0, 1, 2, 3, 5, 10, 11)) for _ in range(rank)]
+
+    pending = None      # name to re-use right after an ERASE
+    for step in range(length):
+        r = rng.random()
+        if pending and r < 0.7:
+            a, pending = pending, None
+            k = rng.random()
+            if k < 0.45:
+                ops.append(['setl', a, _hlist(rng, a[-1], shape())])
+            elif k < 0.6:
+                ops.append(['dim', a, [rng.choice((0, 1, 2, 5, 12)) for _ in range(rng.choice((1, 2)))]])
+            elif k < 0.75:
+                ops.append(['ev', a, index(rng.choice((1, 1, 2)))])
+            elif k < 0.9:
+                ops.append(['lete', a, index(rng.choice((1, 1, 2))), _hval(rng, a[-1])])
+            else:
+                ops.append(['getl', a])
+            last = a
+            continue
+        if r < 0.2:
+            a = arrname()
+            ops.append(['setl', a, _hlist(rng, a[-1], shape())])
+            last = a
+        elif r < 0.32:
+            a = arrname()
+            ops.append(['getl', a])
+        elif r < 0.42:
+            a = arrname()
+            ops.append(['ev', a, index(rng.choice((1, 1, 2)))])
+            last = a
+        elif r < 0.5:
+            a = arrname()
+            ops.append(['lete', a, index(rng.choice((1, 1, 2))), _hval(rng, a[-1])])
+            last = a
+        elif r < 0.64:
+            # ERASE: of the array accessed last, or of another one, or of two
+            a = last if (last and rng.random() < 0.6) else arrname()
+            names = [a] if rng.random() < 0.85 else [a, arrname()]
+            ops.append(['erase', names])
+            for n in names:
+                if rng.random() < 0.3:
+                    sig_of.pop(n[:-1], None)         # the name may come back with another type
+            pending = a if a[:-1] in sig_of else None
+        elif r < 0.7:
+            a = arrname()
+            ops.append(['dim', a, [rng.choice((0, 1, 2, 3, 10, 12)) for _ in range(rng.choice((1, 1, 2, 3)))]])
+        elif r < 0.74:
+            ops.append([rng.choice(('clear', 'clear', 'new'))])
+            last = pending = None
+        elif r < 0.79:
+            ops.append(['ob', rng.choice((0, 1))])
+        elif r < 0.87:
+            sg = rng.choice('%!#$')
+            nm = rng.choice(('SA', 'SB', 'SC')) + sg
+            ops.append(rng.choice((['set', nm, _hval(rng, sg)], ['let', nm, _hval(rng, sg)])))
+        elif r < 0.92:
+            ops.append(['get', rng.choice(('SA', 'SB', 'SC')) + rng.choice('%!#$')])
+        else:
+            def operand():
+                if rng.random() < 0.4:
+                    return ['s', rng.choice(('SA', 'SB', 'SC')) + rng.choice('%%$!')]
+                a = arrname()
+                return ['e', a, index(rng.choice((1, 1, 2)))]
+            x, y = operand(), operand()
+            if rng.random() < 0.7:
+                y[1] = y[1][:-1] + x[1][-1]
+                if y[0] == 'e':
+                    sig_of.setdefault(y[1][:-1], y[1][-1])
+                    y[1] = y[1][:-1] + sig_of[y[1][:-1]]
+            ops.append(['swap', x, y])
+    # read everything back at the end
+    for n in ARR_NAMES:
+        if n in sig_of:
+            ops.append(['getl', n + sig_of[n]])
+    return ops
+
+
+def family_restructure():
+    """Deterministic family: two or three arrays, ERASE of the last accessed / of another one, then the name comes
+    back by a list (same or other rank), by DIM with other bounds, by an element access, with or without
+    touching another array in between; every element type."""
+    out = []
+    for sg in '%!#$':
+        v = lambda k: _hval(__import__('random').Random(k), sg)
+        A, B, C = 'R1' + sg, 'R2' + sg, 'R3' + sg
+        for which in ('last', 'other'):
+            for back in ('list1', 'list2', 'dim', 'elem', 'read'):
+                for between in (False, True):
+                    ops = [['setl', B, [v(1), v(2), v(3)]], ['setl', A, [v(4), v(5), v(6)]]]
+                    if which == 'other':
+                        ops.append(['ev', B, [1]])
+                    ops.append(['erase', [A]])
+                    if between:
+                        ops.append(['getl', B])
+                    if back == 'list1':
+                        ops.append(['setl', A, [v(7), v(8), v(9), v(10)]])
+                    elif back == 'list2':
+                        ops.append(['setl', A, [[v(7), v(8)], [v(9), v(10)]]])
+                    elif back == 'dim':
+                        ops += [['dim', A, [12]], ['lete', A, [12], v(11)]]
+                    elif back == 'elem':
+                        ops.append(['lete', A, [3], v(12)])
+                    else:
+                        ops.append(['ev', A, [2]])
+                    ops += [['getl', A], ['ev', A, [3]], ['getl', B], ['setl', C, [v(13)]], ['getl', A], ['erase', [A, B]],
+                            ['getl', A], ['getl', C]]
+                    out.append(ops)
+    return out
+
+
+def run_restructure_history(ch, ctx, ops, label='restruct'):
+    """Run one history on the real session and on the reference dictionary model; every API value and every
+    status is compared as it is produced.  Histories that only use % arrays also go to the Lean model."""
+    s = ch.s
+    s.execute(b'NEW')
+    s.execute(b'CLEAR')
+    ref = Ref()
+    table = basic.error_table()
+    case = {'kind': 'restruct', 'ops': ops}
+    tokens, mline = [], []
+    modelled = True
+
+    def fail(cls, i, what):
+        ctx.fail('restruct:%s' % cls, case, 'step %d %r: %s' % (i, ops[i], what))
+
+    def status_of(out):
+        m = [l[:-1] for l in out.split(b'\r\n') if l.endswith(b'\xff')]
+        if not m:
+            return None
+        return table.get(m[0].split(b' in ')[0], -1)
+
+    def mid(name):
+        return ARR_NAMES.index(name[:-1]) + 1 if name[:-1] in ARR_NAMES and name[-1] == '%' else None
+
+    try:
+        for i, op in enumerate(ops):
+            k = op[0]
+            tok = None
+            if k in ('clear', 'new'):
+                s.execute(k.upper().encode())
+                ref.clear()
+                mline.append('c')
+                tok = 'ok'
+            elif k == 'ob':
+                got = status_of(s.execute(b'OPTION BASE %d' % op[1]))
+                want = ref.option_base(op[1])
+                if got != want:
+                    return fail('option-base', i, 'gave error %s, expected %s' % (got, want))
+                mline.append('ob%d' % op[1])
+                tok = 'ok' if got is None else 'e%d' % got
+            elif k == 'dim':
+                got = status_of(s.execute(('DIM %s(%s)' % (op[1], ','.join(map(str, op[2])))).encode()))
+                want = ref.dim(op[1], op[2])
+                if got != want:
+                    return fail('dim', i, 'gave error %s, expected %s' % (got, want))
+                if mid(op[1]):
+                    mline.append('d:%d:%s' % (mid(op[1]), ','.join(map(str, op[2]))))
+                    tok = 'ok' if got is None else 'e%d' % got
+                else:
+                    modelled = False
+            elif k == 'erase':
+                got = status_of(s.execute(('ERASE ' + ','.join(n for n in op[1])).encode()))
+                want = ref.erase(op[1])
+                if got != want:
+                    return fail('erase', i, 'gave error %s, expected %s' % (got, want))
+                if all(mid(n) for n in op[1]):
+                    mline.append('e:' + ','.join(str(mid(n)) for n in op[1]))
+                    tok = 'ok' if got is None else 'e%d' % got
+                else:
+                    modelled = False
+            elif k == 'setl':
+                try:
+                    s.set_variable(op[1] + '()', op[2])
+                    got = None
+                except Exception as e:
+                    st = classify_exc(e)
+                    if not st.startswith('err'):
+                        return fail('exc-' + st.split()[-1], i, 'set_variable raised %r' % (e,))
+                    got = int(st.split()[1])
+                want = ref.from_list(op[1], _b(op[2]))
+                if got != want:
+                    return fail('set-list-status', i, 'set_variable gave error %s, expected %s' % (got, want))
+                if mid(op[1]):
+                    r = depth(op[2])
+                    mline.append('s%d:%d:%s' % (r, mid(op[1]), enc_list(op[2], r)))
+                    tok = 'ok' if got is None else 'e%d' % got
+                else:
+                    modelled = False
+            elif k == 'getl':
+                got = s.get_variable(op[1] + '()')
+                want = ref.to_list(op[1])
+                if got != want:
+                    return fail('get-list', i, 'get_variable gave %s, the history says %s' % (trunc(got), trunc(want)))
+                if mid(op[1]):
+                    mline.append('g:%d' % mid(op[1]))
+                    tok = 'gmissing' if got == [] else 'g%d=%s' % (depth(got), enc_list(got, depth(got)))
+            elif k == 'ev':
+                got = s.evaluate('%s(%s)' % (op[1], ','.join(map(str, op[2]))))
+                e = ref.access(op[1], op[2])
+                want = None if e else ref.get_elem(op[1], op[2])
+                if got != want or (got is not None and type(got) is not type(want)):
+                    return fail('evaluate-element', i, 'evaluate gave %r, the history says %r' % (got, want))
+                if mid(op[1]):
+                    mline.append('r:%d:%s' % (mid(op[1]), ','.join(map(str, op[2]))))
+                    tok = 'e%d' % e if e else 'v%d' % got
+                else:
+                    modelled = False
+            elif k == 'lete':
+                got = status_of(s.execute(('%s(%s)=%s' % (op[1], ','.join(map(str, op[2])), _lit(op[3]))).encode()))
+                want = ref.access(op[1], op[2])
+                if not want:
+                    ref.set_elem(op[1], op[2], _b(op[3]))
+                if got != want:
+                    return fail('let-element', i, 'gave error %s, expected %s' % (got, want))
+                if mid(op[1]):
+                    mline.append('w:%d:%s:%d' % (mid(op[1]), ','.join(map(str, op[2])), op[3]))
+                    tok = 'ok' if got is None else 'e%d' % got
+                else:
+                    modelled = False
+            elif k in ('set', 'let'):
+                if k == 'set':
+                    s.set_variable(op[1], op[2])
+                else:
+                    s.execute(('%s=%s' % (op[1], _lit(op[2]))).encode())
+                ref.sc[op[1]] = _b(op[2])
+            elif k == 'get':
+                want = ref.sc.get(op[1], _default(op[1][-1]))
+                got = s.get_variable(op[1])
+                if got != want or type(got) is not type(want) or s.evaluate(op[1]) != want:
+                    return fail('scalar', i, 'reads %r, the history says %r' % (got, want))
+            elif k == 'swap':
+                txt = lambda r: r[1] if r[0] == 's' else '%s(%s)' % (r[1], ','.join(map(str, r[2])))
+                got = status_of(s.execute(('SWAP %s,%s' % (txt(op[1]), txt(op[2]))).encode()))
+                want = ref.swap(op[1], op[2])
+                if got != want:
+                    return fail('swap', i, 'gave error %s, expected %s' % (got, want))
+                modelled = modelled and op[1][0] == 's' and op[2][0] == 's'
+            if tok is not None:
+                tokens.append(tok)
+        # final sweep: every scalar and array of the reference reads back
+        for n, v in sorted(ref.sc.items()):
+            if s.get_variable(n) != v:
+                return fail('scalar', len(ops) - 1, 'at the end %s reads %r, the history says %r' % (n, s.get_variable(n), v))
+        for n in sorted(ref.arr):
+            if s.get_variable(n + '()') != ref.to_list(n):
+                return fail('get-list', len(ops) - 1, 'at the end %s() reads %s' % (n, trunc(s.get_variable(n + '()'))))
+    except Exception as e:
+        ctx.fail('restruct:exc-%s' % type(e).__name__, case, 'history raised %r' % (e,))
+        ch.fresh()
+        return
+    ctx.case(('restruct', repr(ops)))
+    ctx.count('restruct:histories')
+    ctx.count('restruct:ops', len(ops))
+    for op in ops:
+        ctx.count('restruct:op:' + op[0])
+    if modelled and mline:
+        ch.batch.append((case, 'ok ' + ';'.join(tokens), 'hist ' + ';'.join(mline)))
+        ctx.count('restruct:modelled')
+
+
+def run_restructure(ch, ctx, n, length):
+    for ops in family_restructure():
+        run_restructure_history(ch, ctx, ops)
+    for i in range(n):
+        rng = ctx.rng
+        if i % 3 == 0:
+            # integer arrays only: the whole history also runs through the Lean model
+            ops = [op for op in gen_restructure(rng, length) if op[0] not in ('swap',)]
+            ops = [[o if not (isinstance(o, str) and o[:-1] in ARR_NAMES) else o[:-1] + '%' for o in op] for op in ops]
+            ops = [op for op in ops if not (op[0] in ('setl', 'lete'))] if False else ops
+            ops = _force_int(ops, rng)
+        else:
+            ops = gen_restructure(rng, length)
+        run_restructure_history(ch, ctx, ops)
+    ch.flush('hist')
+
+
+def _force_int(ops, rng):
+    out = []
+    for op in ops:
+        op = list(op)
+        if op[0] == 'erase':
+            op[1] = [n[:-1] + '%' for n in op[1]]
+        elif op[0] in ('setl', 'getl', 'ev', 'lete', 'dim'):
+            op[1] = op[1][:-1] + '%'
+            if op[0] == 'setl':
+                op[2] = nmap(lambda v: rng.randint(-999, 999), op[2])
+            if op[0] == 'lete':
+                op[3] = rng.randint(-999, 999)
+        out.append(op)
+    return out
+
+
 def run(ctx):
     quick = ctx.quick
     ch = Checker(ctx)
@@ -1189,6 +1651,9 @@ def run(ctx):
         ch.fresh()
         run_pressure(ch, ctx, 400 if quick else 6000)
         ctx.log('memory-pressure episodes done')
+        ch.fresh()
+        run_restructure(ch, ctx, 180 if quick else 5000, 30)
+        ctx.log('restructuring histories done')
     finally:
         ch.close()
 
@@ -1223,6 +1688,8 @@ def replay(ctx, payload):
             run_history(ch, sub, 0, ops=case['ops'])
         elif kind == 'pressure':
             pressure_episode(ch, sub, case['seed'])
+        elif kind == 'restruct':
+            run_restructure_history(ch, sub, case['ops'])
     finally:
         ch.close()
     hits = [f for f in sub.failures if f['key'] == payload.get('key')] or sub.failures
